@@ -246,7 +246,9 @@ class ShelxlRefine():
             print(sep_line)
             print('\nError: SHELXL terminated unexpectedly.')
             print('Check for errors in your SHELX input file!\n')
-            self.restore_shx_file()
+            if backup_before:
+                # Only a backup that was made for this run may replace the res file:
+                self.restore_shx_file()
             sys.exit()
 
     def check_refinement_results(self, list_file):
